@@ -575,26 +575,20 @@ def compare_stack(c, o, mo):
 
 
 # which known-finding classes can explain which kind of violation
-KIND_CLASSES = {"never": ["F14", "F12"], "hint": ["F14", "F81", "F83"], "always": ["F8", "F82", "F12"]}
+KIND_CLASSES = {"never": ["F12"], "hint": ["F83"], "always": ["F82", "F12"]}
 
 
 def classes_of(c, mo, i):
     """the finding classes (the predicates the theorems exclude, evaluated by the model) a case is in, for metadata i"""
     if c["kind"] == "F":
         return {"F12"} if mo[3][i] else set()
-    f8, f12, f82, flags = mo[4]
+    f12, f82, flags = mo[4]
     s = set()
-    if f8[i]:
-        s.add("F8")
     if f12[i]:
         s.add("F12")
     if f82[i]:
         s.add("F82")
     if flags[0]:
-        s.add("F14")
-    if flags[1]:
-        s.add("F81")
-    if flags[2]:
         s.add("F83")
     return s
 
@@ -734,7 +728,7 @@ def run(ctx):
                 dis = compare_filter(c, o, mo) if c["kind"] == "F" else compare_stack(c, o, mo)
                 if dis:
                     disagree.append({"case": line, "first": dis[0], "n": len(dis)})
-                if c["kind"] == "S" and not mo[4][3][4]:
+                if c["kind"] == "S" and not mo[4][2][2]:
                     disagree.append({"case": line, "first": {"what": "model: interest pass leaves FilterState::interest set"}, "n": 1})
             if not bad:
                 continue
@@ -746,7 +740,7 @@ def run(ctx):
             for kind, i, k in bad:
                 if kind in reported:
                     continue
-                if kind == "hint" and mo is not None and c["kind"] == "S" and mo[4][3][3]:
+                if kind == "hint" and mo is not None and c["kind"] == "S" and mo[4][2][1]:
                     rep.count("excluded:reload-around-Filtered(hint)")
                     reported.add(kind)
                     continue
